@@ -7,6 +7,10 @@ from design_time_mutants import M
 name = sys.argv[1]
 props = sys.argv[2:]
 subprocess.run("git -C /repo diff --quiet", shell=True, check=True)
+import shutil, tempfile
+# evidence/ and Generated/ written while a mutant is applied must never be committed: keep the clean copies
+keep = tempfile.mkdtemp(dir="/var/tmp")
+shutil.copytree("/verif/evidence", keep + "/evidence")
 try:
     if name in M:
         f, old, new = M[name]
@@ -22,3 +26,5 @@ try:
         print(name, pr, "exit", r.returncode, "|", " ; ".join(l for l in lines if l.startswith("VIOLATION"))[:300])
 finally:
     subprocess.run("git -C /repo checkout -- .", shell=True, check=True)
+    shutil.rmtree("/verif/evidence"); shutil.copytree(keep + "/evidence", "/verif/evidence"); shutil.rmtree(keep)
+    subprocess.run(["/venv/bin/python", "/verif/harness/translate.py"], stdout=subprocess.DEVNULL)
